@@ -625,6 +625,14 @@ def unary_terms(X, lvl=2):
         for ax in range(2, n):
             yield _t1("Normalize", "Normalize({a}," + f"axis={ax})", X, lambda x, ax=ax: LA.Normalize(x, axis=ax),
                       lambda A, ax=ax: m_normalize(A, ax))
+    # numpy functions outside the library's table of reducers that CONSUME the element / Gauss-point axes: the result is a plain tensor
+    if r_ >= 1:
+        yield _t1("np_consumer", "np.linalg.norm({a},axis=0)", X, lambda x: np.linalg.norm(x, axis=0),
+                  lambda A: MV("plain", np.linalg.norm(A.a, axis=0), floor=A.mag))
+        yield _t1("np_consumer", "np.einsum('ep...->...',{a})", X, lambda x: np.einsum("ep...->...", x),
+                  lambda A: MV("plain", np.einsum("ep...->...", np.asarray(A.a)), floor=A.mag))
+        yield _t1("np_consumer", "np.percentile({a},50,axis=0)", X, lambda x: np.percentile(x, 50, axis=0),
+                  lambda A: MV("plain", np.percentile(A.a, 50, axis=0), floor=A.mag))
     yield from reducer_terms(X, lvl)
     # reshape / ravel / integrate
     for s in (reshape_targets(shape) if lvl >= 1 else reshape_targets(shape)[:6]):
